@@ -20,5 +20,18 @@ while IFS=$'\t' read -r id file expr prop want; do
   if [ "$hit" -gt 0 ]; then echo "caught $id ($prop, $hit violation lines)"; else echo "MISSED $id ($prop): $(echo "$out" | tail -1)"; rc=1; fi
   cp /tmp/st.bak.$$ $wt/v3/$file
 done < /verif/selftest/corpus.tsv
+# must-pass corpus: harmless edits; any VIOLATION line is a false alarm of the machinery
+while IFS=$'\t' read -r id file expr prop; do
+  case "$id" in \#*|"") continue;; esac
+  [ -n "$1" ] && [[ "$id" != *"$1"* ]] && continue
+  cp $wt/v3/$file /tmp/st.bak.$$
+  sed -i "$expr" $wt/v3/$file
+  if cmp -s $wt/v3/$file /tmp/st.bak.$$; then echo "STALE  $id: the expression no longer changes $file"; rc=1; continue; fi
+  if ! (cd $wt/v3 && go build ./... >/dev/null 2>&1); then echo "STALE  $id: does not compile"; cp /tmp/st.bak.$$ $wt/v3/$file; rc=1; continue; fi
+  out=$(/verif/bin/govc check -prop $prop -tier quick -repo $wt/v3 -verif $vd 2>&1)
+  hit=$(echo "$out" | grep -c "^VIOLATION")
+  if [ "$hit" -eq 0 ]; then echo "quiet  $id ($prop)"; else echo "ALARM  $id ($prop): $(echo "$out" | grep -m1 "^VIOLATION" | cut -c1-200)"; rc=1; fi
+  cp /tmp/st.bak.$$ $wt/v3/$file
+done < /verif/selftest/harmless.tsv
 git -C /repo worktree remove --force $wt; rm -rf $vd /tmp/st.bak.$$
 exit $rc
